@@ -317,13 +317,61 @@ func runC14(c *run.Ctx) {
 		r := c.Rand(i)
 		base := gen.TypeSchema(r, gen.TypeOpts{Directives: true, CustomRoots: false, Small: true})
 		sdl := base.SDL(model.SDLOpts{})
+		var hist []string
 		root, err := loadSDL(sdl)
+		if i%4 == 3 && err == nil {
+			// the history starts on a root that has NO schema yet: its very first loads fail (they define the root operation
+			// types and break a rule elsewhere), then the base schema arrives
+			root = ggql.NewRoot(&c15Root{Query: &c15Obj{}, Mutation: &c15Obj{}, Subscription: &c15Obj{}})
+			firsts := []string{
+				"type Query { staleZz: Int }\ntype Mutation { staleMutZz: Int }\ntype EmptyZz { }",
+				"type Query { staleZz: Int other: NopeTypeZz }",
+				"type Subscription { staleSubZz: Int }\ntype Query { staleZz: Int }\nenum NoValuesZz { }",
+				"schema { query: QZz }\ntype QZz { staleZz: Int }\ninput BadInZz { a: QZz }",
+			}
+			for k, m := 0, 1+r.Intn(2); k < m && err == nil; k++ {
+				f := firsts[r.Intn(len(firsts))]
+				var ferr error
+				pv, _ := run.Protect(func() { ferr = root.ParseString(f) })
+				hist = append(hist, "[fail-on-empty-root] "+f)
+				c.Bucket("load_kind", "fail-on-empty-root")
+				if pv != nil {
+					c.Violation("c14-panic", map[string]interface{}{"history": hist, "diag": fmt.Sprintf("load panics: %v", pv)})
+					err = fmt.Errorf("panic")
+				} else if ferr == nil {
+					c.Count("expected_failure_was_accepted(left_to_C13)", 1)
+					err = fmt.Errorf("accepted")
+				}
+			}
+			if err == nil {
+				run.Protect(func() { err = root.ParseString(sdl) })
+				hist = append(hist, "[valid base on the so far empty root]")
+				if err != nil {
+					c.Violation("c14-differs-from-shadow", map[string]interface{}{"base_sdl": sdl, "history": hist,
+						"diag": "the base schema loads on a fresh root but not on a root whose only earlier loads failed: " + err.Error()})
+					continue
+				}
+			} else {
+				continue
+			}
+		}
 		shadow, err2 := loadSDL(sdl)
 		if err != nil || err2 != nil {
 			c.Count("base_schema_not_accepted(left_to_C13)", 1)
 			continue
 		}
-		var hist []string
+		if i%4 == 3 {
+			a, e1 := observe(root)
+			b, e2 := observe(shadow)
+			if e1 != nil || e2 != nil {
+				c.Violation("c14-observe", map[string]interface{}{"base_sdl": sdl, "history": hist, "diag": fmt.Sprint(e1, e2)})
+				continue
+			}
+			if d := vecDiff(a, b); d != "" {
+				c.Violation("c14-differs-from-shadow", map[string]interface{}{"base_sdl": sdl, "history": hist, "diag": d})
+				continue
+			}
+		}
 		var good []c14Load
 		nontriv := false
 		bad := false
